@@ -201,10 +201,20 @@ func c14Tables(c *Ctx, in *absint.Interp) {
 
 func c14Castling(c *Ctx, in *absint.Interp) {
 	r := c.R
-	printFn := c.fn("R14-tables", "pkg/board/fen", "", "printCastling")
+	printFn := c.find("pkg/board/fen", "", "printCastling")
 	parseFn := c.fn("R14-tables", "pkg/board/fen", "", "parseCastling")
-	if printFn == nil || parseFn == nil {
+	if parseFn == nil {
 		return
+	}
+	var inlineText func(rights int64) (string, bool)
+	if printFn == nil {
+		// no separate printer: the text is built inline in Encode, from the result of Position.Castling() to the
+		// third operand of its Sprintf - evaluated over that region with the rights fixed
+		inlineText = c14InlineCastling(c)
+		if inlineText == nil {
+			printFn = c.fn("R14-tables", "pkg/board/fen", "", "printCastling") // reports the missing anchor
+			return
+		}
 	}
 	bit := map[string]int64{}
 	for n, l := range map[string]string{"WhiteKingSideCastle": "K", "WhiteQueenSideCastle": "Q", "BlackKingSideCastle": "k", "BlackQueenSideCastle": "q"} {
@@ -221,12 +231,20 @@ func c14Castling(c *Ctx, in *absint.Interp) {
 		if want == "" {
 			want = "-"
 		}
-		outs := in.Run(printFn, []absint.Value{absint.MkInt(rights, printFn.Params[0].Type())}, absint.NewState())
-		got := ""
-		if len(outs) == 1 && !outs[0].Undecided() {
-			got = vstrOf(outs[0].Ret)
+		got, where := "", ""
+		if printFn != nil {
+			outs := in.Run(printFn, []absint.Value{absint.MkInt(rights, printFn.Params[0].Type())}, absint.NewState())
+			if len(outs) == 1 && !outs[0].Undecided() {
+				got = vstrOf(outs[0].Ret)
+			}
+			where = c.pos(printFn.Pos())
+		} else {
+			if g, ok := inlineText(rights); ok {
+				got = g
+			}
+			where = c.pos(c.find("pkg/board/fen", "", "Encode").Pos())
 		}
-		r.Check(got == fmt.Sprintf("%q", want), "R14-tables", fmt.Sprintf("fen castling text|rights=%d", rights), c.pos(printFn.Pos()), "", fmt.Sprintf("printed as %s, standard %q", got, want))
+		r.Check(got == fmt.Sprintf("%q", want), "R14-tables", fmt.Sprintf("fen castling text|rights=%d", rights), where, "", fmt.Sprintf("printed as %s, standard %q", got, want))
 	}
 	// reader: loop body per letter
 	// the accumulator: the loop-carried variable of the result's type (whatever it is called)
@@ -284,6 +302,81 @@ func c14Castling(c *Ctx, in *absint.Interp) {
 		bad = joinNonEmpty(bad, fmt.Sprintf("reader accepts letters %v", got))
 	}
 	r.Check(bad == "", "R14-tables", "fen.parseCastling letter table", c.pos(parseFn.Pos()), "", bad)
+}
+
+// c14CastlingCall: the call of Position.Castling() in Encode whose result the inline text is built from.
+func c14CastlingCall(c *Ctx, encode *ssa.Function) *ssa.Call {
+	getter := c.find("pkg/board", "Position", "Castling")
+	if getter == nil {
+		return nil
+	}
+	var found *ssa.Call
+	n := 0
+	for _, b := range encode.Blocks {
+		for _, ins := range b.Instrs {
+			if call, ok := ins.(*ssa.Call); ok && call.Call.StaticCallee() == getter {
+				found = call
+				n++
+			}
+		}
+	}
+	if n != 1 {
+		return nil
+	}
+	return found
+}
+
+// c14InlineCastling: the castling text Encode builds inline, as a function of the rights.
+func c14InlineCastling(c *Ctx) func(rights int64) (string, bool) {
+	encode := c.find("pkg/board/fen", "", "Encode")
+	if encode == nil {
+		return nil
+	}
+	_, vals, _ := encodeSlots(encode)
+	if len(vals) != 6 {
+		return nil
+	}
+	v := stripConv(vals[2])
+	if mi, ok := v.(*ssa.MakeInterface); ok {
+		v = stripConv(mi.X)
+	}
+	phi, ok := v.(*ssa.Phi)
+	cc := c14CastlingCall(c, encode)
+	if !ok || cc == nil || !cc.Block().Dominates(phi.Block()) || cc.Block() == phi.Block() {
+		return nil
+	}
+	start := cc.Block()
+	var prev *ssa.BasicBlock
+	if len(start.Preds) > 0 {
+		prev = start.Preds[0]
+	}
+	return func(rights int64) (string, bool) {
+		in := newInterp(c.P)
+		in.Hook = func(_ *absint.Interp, st *absint.State, site ssa.CallInstruction, callee *ssa.Function, args []absint.Value, k func(*absint.State, absint.Value)) bool {
+			if site == ssa.CallInstruction(cc) {
+				k(st, absint.MkInt(rights, cc.Type()))
+				return true
+			}
+			return false
+		}
+		outs := in.RunFrom(encode, start, prev, symbolicEnvFor(encode, start), map[*ssa.BasicBlock]bool{phi.Block(): true}, absint.NewState())
+		got, n := "", 0
+		for _, o := range outs {
+			if o.Stopped == nil {
+				return "", false
+			}
+			pv, ok := o.PhiAtStop(phi)
+			if !ok {
+				return "", false
+			}
+			if n > 0 && vstrOf(pv) != got {
+				return "", false
+			}
+			got = vstrOf(pv)
+			n++
+		}
+		return got, n > 0
+	}
 }
 
 func c14Wiring(c *Ctx) {
@@ -346,6 +439,16 @@ func c14Wiring(c *Ctx) {
 							for k, p := range h.Params {
 								if ssa.Value(p) == a && k < len(outer.Call.Args) {
 									return outer.Call.Args[k]
+								}
+							}
+							// a field of a struct the helper is passed (or is a method of): what the caller's literal puts there
+							if prm, fi, ok := paramOfStructRead(a); ok {
+								for k, p := range h.Params {
+									if p == prm && k < len(outer.Call.Args) {
+										if fv := literalFieldValue(outer.Call.Args[k], fi); fv != nil {
+											return fv
+										}
+									}
 								}
 							}
 							return inner.Call.Args[i]
@@ -416,6 +519,14 @@ func c14Wiring(c *Ctx) {
 					a, okA := guardedConstString(slotVals[i], colP, wv)
 					b, okB := guardedConstString(slotVals[i], colP, bv)
 					ok = okA && okB && a != b
+				}
+			}
+			if i == 2 && !ok && c.find("pkg/board/fen", "", "printCastling") == nil {
+				// inline choice of the letters: the operand depends on the rights through the branches that append them
+				// (the text per rights value is decided by R14-tables) - the rights must be those of the position
+				if cc := c14CastlingCall(c, encode); cc != nil && len(cc.Call.Args) == 1 && c14InlineCastling(c) != nil {
+					ok = c.provenance(encode, cc.Call.Args[0]).onlyParam(w.param)
+					w.via = nil
 				}
 			}
 			for _, v := range w.via {
